@@ -182,7 +182,7 @@ def run(chk):
     b = core.standard_build(chk)
     model = core.Model() if b.modelrun_ok else None
     full = chk.tier == 'thorough' or bool(b.drift) or not b.proof_ok
-    nfile = 300 if full else 55
+    nfile = core.budget(chk, full, 55, 300)
     ncli = 12 if full else 3
     chk.rule = ('generated documents written to real temporary files with LF / CRLF / CR line ends, with and without final newline, '
                 'non-ASCII lyrics (every 11th with the extra separators of str.splitlines: finding K9): load vs loads (whole tree), '
